@@ -195,7 +195,8 @@ def from_acgt_bytes_lemma(F, rep, rule="C16.3", maxn=100):
     try:
         dt = DnaT(F)
     except Unsupported as e:
-        rep.violated(rule, "from_acgt_bytes", str(e), witness={"kind": "anchor-missing"})
+        # the private representation of DnaString is not the one the lemmas are written against: undecided here
+        rep.inconclusive(rule, "from_acgt_bytes", "role discovery: %s" % e)
         return
     key = "dna_string::DnaString::from_acgt_bytes"
     if key not in F.insts:
@@ -223,7 +224,8 @@ def from_str_lemmas(F, rep, rule="C16.6"):
     try:
         dt = DnaT(F)
     except Unsupported as e:
-        rep.violated(rule, "from_dna_string", str(e), witness={"kind": "anchor-missing"})
+        # the private representation of DnaString is not the one the lemmas are written against: undecided here
+        rep.inconclusive(rule, "from_dna_string", "role discovery: %s" % e)
         return
     for n in (0, 1, 5, 31, 32, 33, 70):
         okey = "from_dna_string/n=%d" % n
@@ -315,7 +317,8 @@ def dna_only_runs(F, rep, rule="C16.4", maxn=5):
     try:
         dt = DnaT(F)
     except Unsupported as e:
-        rep.violated(rule, "from_dna_only_string", str(e), witness={"kind": "anchor-missing"})
+        # the private representation of DnaString is not the one the lemmas are written against: undecided here
+        rep.inconclusive(rule, "from_dna_only_string", "role discovery: %s" % e)
         return
     key = "dna_string::DnaString::from_dna_only_string"
     if key not in F.insts:
@@ -565,7 +568,8 @@ def packed_set_add(F, rep, rule="C14.5"):
     try:
         dt = DnaT(F)
     except Unsupported as e:
-        rep.violated(rule, PS + "::add", str(e), witness={"kind": "anchor-missing"})
+        # the private representation of DnaString is not the one the lemmas are written against: undecided here
+        rep.inconclusive(rule, PS + "::add", "role discovery: %s" % e)
         return
     for n0, m in ((0, 0), (0, 3), (5, 4), (31, 3), (32, 33)):
         okey = "%s::add/len=%d/m=%d" % (PS, n0, m)
